@@ -245,6 +245,41 @@ def formula_gate(run):
             + ' '.join(l for l in out.split('\n') if 'error' in l.lower())[:400]]
 
 
+def guard_gate(run):
+    """C01 / C09 translator: the main-loop test / countComplete() of each rule module, regenerated from the source
+    (harness/gen_guard.py) and kernel-checked equal to the programs of lean/Props/C01Prog.lean."""
+    import gen_guard, subprocess, re
+    cov = run.coverage
+    try:
+        gs = gen_guard.guards(common.REPO)
+    except gen_guard.TranslationError as e:
+        cov['translator_guards'] = dict(status='refused', why=str(e))
+        return ['translator harness/gen_guard.py refused the source: %s' % e]
+    except Exception as e:
+        cov['translator_guards'] = dict(status='error', why='%s: %s' % (type(e).__name__, e))
+        return ['translator harness/gen_guard.py failed: %s: %s' % (type(e).__name__, e)]
+    gdir = os.path.join(common.LEAN, '.lake', 'gen')
+    os.makedirs(gdir, exist_ok=True)
+    path = os.path.join(gdir, 'Guard_%d.lean' % os.getpid())
+    open(path, 'w').write(gen_guard.lean_file(gs))
+    try:
+        r = subprocess.run(['lake', 'env', 'lean', path], cwd=common.LEAN, capture_output=True, text=True, timeout=600)
+        out = r.stdout + r.stderr
+    finally:
+        try: os.remove(path)
+        except OSError: pass
+    ok = r.returncode == 0 and 'error' not in out.lower()
+    axioms_ok = all(set(a.strip() for a in m.split(',') if a.strip()) <= common.STD_AXIOMS
+                    for m in re.findall(r"depends on axioms: \[([^\]]*)\]", out, flags=re.S))
+    cov['translator_guards'] = dict(status='checked' if ok and axioms_ok else 'mismatch', guards=sorted(gs),
+                                    obligation='Gen.<rule>Guard = C01.whileGuardProg, Gen.<rule>Complete = C01.meekCompleteProg / ifCompleteProg by rfl; '
+                                               'stdGuard_is_program, meekCountComplete_is_program, scotCountComplete_is_program, qpqCountComplete_is_program')
+    if ok and axioms_ok:
+        return []
+    return ['the main-loop test / countComplete() of droop/rules/*.py, translated, is no longer the program lean/Props/C01Prog.lean proves the model guard equal to: '
+            + ' '.join(l for l in out.split('\n') if 'error' in l.lower())[:400]]
+
+
 def count_property(run, spec):
     t0 = time.time()
     broken = lean_gate(run, THEOREMS.get(run.prop, []))
@@ -443,7 +478,7 @@ def wigm_fixed4(rng, rule, lowprec=False, rational_meek=False):
 @prop('C01')
 def C01(run):
     count_property(run, dict(rules=ALL, keys=['C01'], crash=True, proj=proj_C01, lowprec=0.04, rational_meek=0.01,
-                             quick=20000, thorough=300000, limit=10.0))
+                             quick=20000, thorough=300000, limit=10.0, extra_gate=guard_gate))
 
 
 @prop('C02')
@@ -481,7 +516,7 @@ def C08(run):
 
 @prop('C09')
 def C09(run):
-    count_property(run, dict(rules=ALL, keys=['C09'], proj=proj_C09, quick=5000, thorough=150000))
+    count_property(run, dict(rules=ALL, keys=['C09'], proj=proj_C09, quick=5000, thorough=150000, extra_gate=guard_gate))
 
 
 @prop('C05')
